@@ -190,6 +190,20 @@ CLAIMED = {
         "by a constant integer.",
         "DESIGN.md §6 C15",
     ),
+    "C16": (
+        "Lean 4 iff-theorems for every validator at its documented bound, pipeline theorem, and an all-cut-points theorem for the dynamic list refresh as a sequence of atomic set operations + differential correspondence with the real validators, pipeline and ListBuilder.run_once",
+        "Proof: NostrRelay/Props/C16.lean proves one iff per validator (size, age both ways, kinds, allow/deny lists, PoW "
+        "bits, p-tag limit for kinds 1/7, service-event author, dynamic lists), that the pipeline admits iff every "
+        "configured validator admits, that with the add-then-intersect refresh every state observable between the set "
+        "operations is non-empty when old and new list are non-empty, and that the result is exactly the new set; the old "
+        "clear-then-update refresh is shown to pass through the empty set (repaired defect). Tie: each real validator at "
+        "bound-1/bound/bound+1 under an injected clock; the real pipeline through add_event on both backends (refused with "
+        "a reason, nothing stored or broadcast); run_once with an instrumented set probing before/after every set method "
+        "and at every await of the query loop, its operation sequence replayed through the Lean `observable`.",
+        "Partial: atomicity of a single set method under the GIL is trusted. One open finding (empty query result drops "
+        "the static whitelist).",
+        "DESIGN.md §6 C16",
+    ),
 }
 
 NOT_YET = "not reached yet in this round (model/tie not built); see DESIGN.md §10 staging — no weaker technique is substituted"
